@@ -54,6 +54,7 @@ class Prop(BaseProp):
         base = "m/44'/0'/1'/0/5"
         faults = []
         toks = ["-1", "-1'", "-5h", "4294967296", "2147483648'", "2147483648h", "99999999999999999999", "x", "1x", "0x10", "1.0", "1e3", "", "'", "h", "--1",
+                " -1'", " -1", "\t-5h", " -2147483648'", " +3", " +3'", "\n-0'", " -7 ", "- 1", "+ 1'", "-1 '", " - 1'", "\x0b-9", "\x1f-1'", "-\t1",
                 " ", "é", "1 2", "١", "-0", "+5", " 5", "5 ", "1_0", "1__0", "_1", "1_", "00", "007", "-0'", "+1'", "4294967295", "2147483647'", "٣"]
         comps = base.split("/")
         for t in toks:
